@@ -473,6 +473,36 @@ class World:
             if r.random() < 0.3:
                 self.objs[uid]['metadata']['finalizers'] = ['other/finalizer']   # type: ignore[index]
 
+    def mark_handled(self, uid: str) -> None:
+        """As an earlier operator process left it: the last-handled state written by the real diff-base storage."""
+        obj = self.objs[uid]
+        assert obj is not None
+        storage = self.env.settings.persistence.diffbase_storage
+        body = self.env.bodies.Body(obj)
+        p = self.env.patches.Patch({})
+        storage.store(body=body, patch=p, essence=storage.build(body=body, extra_fields=set()))
+        self.objs[uid] = canon.merge7386(obj, json.loads(json.dumps(dict(p))))
+
+    def seed(self, uid: str, r: Any, needs_finalizer: bool) -> str:
+        """A random life-cycle state at the start of the history."""
+        k = r.random()
+        if k < 0.3:
+            return 'never-handled'
+        self.mark_handled(uid)
+        obj = self.objs[uid]
+        assert obj is not None
+        md = obj['metadata']
+        if needs_finalizer and r.random() < 0.8:
+            md['finalizers'] = list(md.get('finalizers', [])) + [FIN]
+        state = 'handled'
+        if r.random() < 0.25:
+            obj['spec']['x'] = 'edited-while-down'
+            state += '+edited'
+        if md.get('finalizers') and r.random() < 0.15:
+            md['deletionTimestamp'] = '2030-01-01T00:00:00Z'
+            state += '+deleting'
+        return state
+
     def bump(self, obj: dict) -> str:
         self.rv += 1
         obj['metadata']['resourceVersion'] = str(self.rv)
@@ -544,10 +574,15 @@ def run_history(ctx: fw.Ctx, env: Env, D: dict[str, list[fw.Case]], decls: list[
             W.objs[uid]['metadata']['labels'] = {'sel': 'on'}       # type: ignore[index]
             W.objs[uid]['metadata'].pop('finalizers', None)         # type: ignore[index]
             W.objs[uid]['spec'] = {'x': 1}                          # type: ignore[index]
+            W.mark_handled(uid)
+    else:
+        needs_fin = any(d['kind'] == 'delete' for d in decls)
+        for uid in uids:
+            ctx.count('start_state', W.seed(uid, r, needs_fin))
     loop = vloop.new_loop()
     memories = env.inventory.ResourceMemories()
     epoch = 0
-    pending: list[tuple[Any, str]] = [(None if r.random() < 0.5 else 'ADDED', u) for u in uids]
+    pending: list[tuple[Any, str]] = [(None if r.random() < 0.75 else 'ADDED', u) for u in uids]
     if script is not None:
         pending = []
     labels: list[str] = []          # Coq labels of the whole history
@@ -559,6 +594,7 @@ def run_history(ctx: fw.Ctx, env: Env, D: dict[str, list[fw.Case]], decls: list[
     gone: set[str] = set()
     successes: dict[tuple[int, str, int], int] = {}
     initial_false: set[tuple[int, str]] = set()
+    closed: set[tuple[int, str]] = set()             # a handling cycle of the object has completed in this process
     first_cycle_due: dict[tuple[int, str], bool] = {}
     relist_in_open_cycle = False
     steps = len(script) if script is not None else r.choice([8, 12, 16, 22])
@@ -573,8 +609,8 @@ def run_history(ctx: fw.Ctx, env: Env, D: dict[str, list[fw.Case]], decls: list[
                     kind = act['a']
                 else:
                     if not pending:
-                        kind = r.choice(['edit', 'edit', 'status', 'label', 'relist', 'relist', 'restart', 'delete', 'sleep', 'sleep',
-                                         'unfinalize', 'touch', 'stale'])
+                        kind = r.choice(['edit', 'edit', 'status', 'label', 'label', 'relist', 'relist', 'relist', 'restart', 'restart',
+                                         'delete', 'sleep', 'sleep', 'sleep', 'unfinalize', 'stale'])
                         act = {'a': kind, 'uid': r.choice(uids)}
                     else:
                         kind, act = 'deliver', {}
@@ -586,7 +622,7 @@ def run_history(ctx: fw.Ctx, env: Env, D: dict[str, list[fw.Case]], decls: list[
                     labels.append('LRestart')
                     trace_data.append({'a': 'restart'})
                     pending = [(None, u) for u in live]
-                    ctx.count('env_action', 'restart')
+                    ctx.count('fn_env_action', 'restart')
                     continue
                 if kind == 'relist':
                     pending = [(None, u) for u in live]        # the stream restarts: what was in flight is superseded by the listing
@@ -595,18 +631,18 @@ def run_history(ctx: fw.Ctx, env: Env, D: dict[str, list[fw.Case]], decls: list[
                         assert obj is not None
                         if any(W.prog(obj, h) != 'none' for h in R.ids):
                             relist_in_open_cycle = True
-                    ctx.count('env_action', 'relist')
+                    ctx.count('fn_env_action', 'relist')
                     kind = 'deliver'
                 elif kind == 'sleep':
                     loop.advance_by(act.get('dt', r.choice([TMP_DELAY, TMP_DELAY, 3, 25]) if script is None else TMP_DELAY))
                     loop.settle()
-                    ctx.count('env_action', 'sleep')
+                    ctx.count('fn_env_action', 'sleep')
                     pending.append(('MODIFIED', act['uid'])) if W.objs[act['uid']] is not None else None
                     kind = 'deliver'
                 elif kind in ('edit', 'status', 'label', 'delete', 'unfinalize', 'touch', 'stale', 'event'):
                     uid = act['uid']
                     obj = W.objs[uid]
-                    ctx.count('env_action', kind)
+                    ctx.count('fn_env_action', kind)
                     if kind == 'event':                       # scripted: deliver exactly this event type
                         pending.append((act['type'], uid))
                     elif kind == 'stale':                     # an event after DELETED: outside Kubernetes, inside the model
@@ -710,12 +746,13 @@ def run_history(ctx: fw.Ctx, env: Env, D: dict[str, list[fw.Case]], decls: list[
                 D['resume_step'].append(fw.Case(f'res_eqb rs_step_eqb ({call}) (Ok ({cmems(after)}, {cobs(obs)}))', data, diag=call))
                 labels.append(f'(LEv {cin(cq.cjson(uid), inp)})')
                 trace_obs.append(cobs(obs))
-                trace_data.append({'event': ev, 'uid': uid, 'reason': obs['reason'], 'initial': obs['initial'], 'reached': reached,
-                                   'invoked': invoked})
+                trace_data.append({'event': ev, 'uid': uid, 'epoch': epoch, 'reason': obs['reason'], 'initial': obs['initial'],
+                                   'reached': reached, 'match': matching, 'selected': selected, 'invoked': invoked})
                 ctx.count('step_reason', obs['reason'] + ('+initial' if obs['initial'] else ''))
                 ctx.count('step_gate', 'reached' if reached else 'not-reached')
                 ctx.count('step_event', str(ev))
-                ctx.count('step_closing', 'done' if obs['done'] else 'skip' if obs['skip'] else 'open' if reached else '-')
+                ctx.count('step_closing', 'done' if obs['done'] else 'skip' if obs['skip'] else 'not-reached' if not reached else
+                          'open' if obs['reason'] in ('create', 'update', 'delete', 'resume') else 'no-handling')
                 ctx.count('recall_in_step', 'existing' if any(k == uid for k, _, _ in before) else 'created')
 
                 # ---- monitors: the property text on this step (only while the history is one Kubernetes can produce)
@@ -743,8 +780,11 @@ def run_history(ctx: fw.Ctx, env: Env, D: dict[str, list[fw.Case]], decls: list[
                     if first_seen[key] is not None:
                         ctx.fail('a resume handler ran for an object first seen by a watch event (created after the start)', inv,
                                  observed=first_seen[key], sig='resume-for-new-object')
-                    if not handled_before or c['reason'] == 'create':
-                        ctx.fail('a resume handler ran for an object that was never handled before', inv, sig='resume-never-handled')
+                    if c['reason'] == 'create' or (not handled_before and not W.deleting(raw)):
+                        ctx.fail('a resume handler was mixed into the creation of a never-handled object', inv, sig='resume-on-create')
+                    if key in closed:
+                        ctx.fail('a resume handler ran after a handling cycle of the object had already completed in this operator '
+                                 'process (a later change or re-listing triggered it)', inv, sig='resume-after-closed-cycle')
                     if W.deleting(raw) and d['kind'] != 'resume-deleted':
                         ctx.fail('a resume handler ran for an object being deleted without opting in', inv, sig='resume-on-deleting')
                     if c['outcome'] == 'ok':
@@ -753,6 +793,8 @@ def run_history(ctx: fw.Ctx, env: Env, D: dict[str, list[fw.Case]], decls: list[
                         if successes[k3] > 1 and d['id'] not in R.ambiguous:
                             ctx.fail('a resume handler ran to completion more than once for one object in one operator process', inv,
                                      observed=successes[k3], expected='at most 1', sig='resume-twice')
+                if obs['done'] or obs['skip']:
+                    closed.add(key)
                 # liveness in the first handling cycle of a pre-existing, handled, unburdened, live object
                 if key not in first_cycle_due:
                     first_cycle_due[key] = (first_seen[key] is None and handled_before and not W.deleting(raw)
@@ -788,6 +830,30 @@ def run_history(ctx: fw.Ctx, env: Env, D: dict[str, list[fw.Case]], decls: list[
 
 
 # --------------------------------------------------------------------------------------------
+# Known findings
+# --------------------------------------------------------------------------------------------
+
+def match_f1401(f: dict) -> bool:
+    """F1401: the second success of a FILTERED resume handler, with a handling step of the same object in between (same
+    process, cycle still open: cause.initial) for which the handler's filter did not match — its finished record was
+    purged there as an 'extra' of another purpose."""
+    if f['sig'] != 'resume-twice':
+        return False
+    c = f['case']
+    inv = c.get('invocation') or {}
+    ix, uid, epoch = inv.get('registration'), c.get('uid'), c.get('epoch')
+    if ix is None or not c['registry'][ix].get('sel'):
+        return False
+    steps = [t for t in c['trace'] if t.get('uid') == uid and t.get('epoch') == epoch]
+    oks = [n for n, t in enumerate(steps) if [ix, 'ok'] in [list(x) for x in t['invoked']]]
+    if len(oks) < 2:
+        return False
+    between = steps[oks[-2] + 1:oks[-1]]
+    return any(t['reached'] and t['initial'] and t['reason'] in ('update', 'resume', 'delete') and ix not in t['match']
+               and ix not in t['selected'] for t in between)
+
+
+# --------------------------------------------------------------------------------------------
 # Entry point (called by c14.function_level)
 # --------------------------------------------------------------------------------------------
 
@@ -801,6 +867,7 @@ def load_corpus() -> list[dict]:
 
 
 def differential(ctx: fw.Ctx) -> None:
+    ctx.matchers.update({'F1401': match_f1401})
     ok, logtxt = fw.build_models(['Model/Resume.v'])
     if not ok:
         ctx.correspondence_break('model build', logtxt[-1500:])
